@@ -1,6 +1,8 @@
 package extcfs
 
 import (
+	"io"
+
 	"github.com/goatcms/goatcore/filesystem"
 	"github.com/goatcms/goatcore/filesystem/filespace/encryptfs/cipherfs"
 	"github.com/goatcms/goatcore/varutil/goaterr"
@@ -41,7 +43,8 @@ func (c Cipher) DecryptReader(key []byte, stream filesystem.Reader) (reader file
 		p          = make([]byte, 4)
 		fileCipher cipherfs.Cipher
 	)
-	if _, err = stream.Read(p); err != nil {
+	// a Read may legally return fewer bytes than asked for: read the whole tag
+	if _, err = io.ReadFull(stream, p); err != nil {
 		return nil, err
 	}
 	ckey = NewCipherKey(p)
